@@ -9,7 +9,7 @@ only replayed that object's mutators (dst/oracle_fork.py).
 import copy
 
 from ..kernel import Violation, cjson
-from ..gen import gen_seq, AA, gen_special
+from ..gen import gen_seq, AA, gen_special, gen_two_digit_counts, concat_collision, same_classes_other_letters
 from ..clock import SimClock
 from ..rng import RngModule, TapeRandom, UniformDriver
 from ..simfs import SimFS
@@ -194,6 +194,12 @@ def gen_plan(streams, tier):
             objs[1] = {"seq": rep, "how": "string"}
             if nobj > 2 and rnd.random() < 0.5:
                 objs[2] = {"seq": s0 * (5 - k), "how": "string"}
+    if nobj > 1 and rnd.random() < 0.1:
+        a0 = gen_two_digit_counts(rnd)
+        objs[0] = {"seq": a0, "how": "string"}
+        objs[1] = {"seq": concat_collision(rnd, a0) or same_classes_other_letters(rnd, a0), "how": "string"}
+    elif nobj > 1 and rnd.random() < 0.1:
+        objs[1] = {"seq": same_classes_other_letters(rnd, objs[0]["seq"]), "how": "string"}
     p_invalid = rnd.choice((0.0, 0.15, 0.4))
     p_mut = rnd.choice((0.0, 0.05, 0.15))
     p_pattern = rnd.choice((0.1, 0.3))
